@@ -134,8 +134,12 @@ def judge(rep, prop, inp, by_id, results, stats, samples, replay_obj=None):
             if v.get("accept") and req == "reject":
                 failing = sorted(ci.get("failing") or [])
                 sig = dict(kind="accepted-invalid", family=c["fam"], format=c["fmt"], failing="+".join(failing))
-                if "unauthorised-key" in failing:   # which resolver and which history let the key through
-                    sig.update(method=run["method"], kh=c["kh"])
+                if "unauthorised-key" in failing:   # which resolver, which history and which signer let the key through
+                    sig.update(method=run["method"], kh=c["kh"], signer=c.get("vm", "issuer"))
+                if c.get("presenter", "subject") != "subject":
+                    sig.update(presenter=c["presenter"])
+                if str(c.get("vcState", "")).startswith("forged"):
+                    sig.update(carried=c["vcState"])
                 rep.violation(sig, replay)
             elif not v.get("accept") and req == "accept":
                 rep.violation(dict(kind="own-output-rejected", family=c["fam"], format=c["fmt"], reason=cls), replay)
